@@ -183,6 +183,15 @@ inductive Reach (c : Cfg) : List Agent → List Agent → Prop
       Reach c p q → q' ≠ [] → IsRanking (keys c.evalLoop q') rank →
       Reach c p (newPop c rank q' draws)
 
+/-! ### the initial population -/
+
+/-- `create_population(…, population_size = n)` / `Algo.population(n, …)` as far as selection is concerned
+    (`agilerl/utils/utils.py`, `EvolvableAlgorithm.population`): `n` agents that have never been evaluated; member
+    `i` is constructed with `index = i`.  `Proofs/PopGenEq.lean` proves the population translated from the source
+    text equal to this one, for every branch and every `n`. -/
+def initialPop (n : Nat) : List Agent :=
+  (List.range n).map fun (i : Nat) => { index := Int.ofNat i, fitness := [], tag := i }
+
 end Tournament
 
 /-! ### line protocol -/
